@@ -34,8 +34,27 @@ fn build_and_check(rows: usize, cols: usize, cells: &[(usize, usize)], order: &[
         m.insert((i, j), cell_value(i, j, cols));
     }
     let mut trip: Vec<(usize, usize, Rat)> = order.iter().map(|&k| (cells[k].0, cells[k].1, cell_value(cells[k].0, cells[k].1, cols))).collect();
-    let s = Sparse::from_triplets(rows, cols, &mut trip);
-    views_check(&s, rows, cols, &m).map_err(|e| format!("from_triplets order {:?}: {}", order, e))
+    let mut s = Sparse::from_triplets(rows, cols, &mut trip);
+    views_check(&s, rows, cols, &m).map_err(|e| format!("from_triplets order {:?}: {}", order, e))?;
+    // modify what was just built (in whatever storage order the construction left): overwrite every entry, then add every absent one
+    if rows * cols <= 9 {
+        for (n, &(i, j)) in cells.iter().enumerate() {
+            let v = Rat::int(100 + n as i64);
+            s.insert(i, j, v);
+            m.insert((i, j), v);
+            views_check(&s, rows, cols, &m).map_err(|e| format!("from_triplets order {:?}, then overwrite ({},{}): {}", order, i, j, e))?;
+        }
+        for i in 0..rows {
+            for j in 0..cols {
+                if !m.contains_key(&(i, j)) {
+                    s.insert(i, j, Rat::int(-7));
+                    m.insert((i, j), Rat::int(-7));
+                    views_check(&s, rows, cols, &m).map_err(|e| format!("from_triplets order {:?}, then insert ({},{}): {}", order, i, j, e))?;
+                }
+            }
+        }
+    }
+    Ok(())
 }
 fn from_vecs_check(rows: usize, cols: usize, cells: &[(usize, usize)]) -> Result<(), String> {
     let mut m = SM::new();
